@@ -21,6 +21,10 @@ pub mod graph_ops;
 #[cfg(kani)]
 pub mod ascii_ops;
 #[cfg(kani)]
+pub mod iter_ops;
+#[cfg(kani)]
+pub mod msp_ops;
+#[cfg(kani)]
 pub mod stubs;
 #[cfg(kani)]
 pub mod gen;
